@@ -54,7 +54,7 @@ func LoadProgram(repo string, patterns []string) (*Program, error) {
 			packages.NeedTypes | packages.NeedTypesSizes | packages.NeedSyntax | packages.NeedTypesInfo | packages.NeedModule,
 		Dir:        repo,
 		BuildFlags: []string{"-tags=verif", "-mod=mod", "-modfile=" + filepath.Join(modDir, "go.mod")},
-		Env: append(os.Environ(), "GOFLAGS=", "GOPROXY=off", "GOSUMDB=off", "GOTOOLCHAIN=local", "GOWORK=off"),
+		Env:        append(os.Environ(), "GOFLAGS=", "GOPROXY=off", "GOSUMDB=off", "GOTOOLCHAIN=local", "GOWORK=off"),
 	}
 	pkgs, err := packages.Load(cfg, patterns...)
 	if err != nil {
